@@ -267,15 +267,36 @@ def main(argv):
     # watchdog: a library call that never returns (e.g. a sampler that never accepts) must not hang the check
     import signal
 
-    class LibraryHang(Exception):
+    class LibraryHang(BaseException):       # not an Exception: drivers record `except Exception` as a call's outcome
         pass
 
+    # Two clocks.  (1) every `period` seconds the handler looks at the interrupted stack: if the OUTERMOST library
+    # frame is the very activation that was running at the previous tick, one library call has been running for a
+    # whole period (full-size operations take milliseconds) - it is reported as a violation ("did not return").
+    # Harness code and waiting for TLC never trip it.  (2) an overall limit for the whole check (machinery failure).
+    t_start = time.time()
+    hang = {"last": None}
+    libsrc = os.path.realpath(os.path.join(REPO, "src")) + os.sep
+    period = int(os.environ.get("VERIF_HANG_S", "240"))
+
     def on_alarm(signum, frame):
-        raise LibraryHang("no progress for %d s" % limit)
+        outer, f = None, frame
+        while f is not None:
+            fn = f.f_code.co_filename
+            if "_toy_" in fn or os.path.realpath(fn).startswith(libsrc):
+                outer = f
+            f = f.f_back
+        if outer is not None and outer is hang["last"]:
+            raise LibraryHang("%s() (line %d of %s) did not return within %d s" %
+                              (outer.f_code.co_name, outer.f_lineno, os.path.basename(outer.f_code.co_filename), period))
+        hang["last"] = outer
+        if time.time() - t_start > limit:
+            raise MachineryError("check exceeded its overall time limit of %d s" % limit)
+        signal.alarm(period)
     limit = int(os.environ.get("VERIF_WATCHDOG_S", "3000" if a.tier == "quick" else "40000"))
     try:
         signal.signal(signal.SIGALRM, on_alarm)
-        signal.alarm(limit)
+        signal.alarm(period)
     except Exception:                       # noqa
         pass
     cover = os.environ.get("VERIF_COVER")          # one-off analysis: which library lines do the drivers execute?
@@ -307,13 +328,17 @@ def main(argv):
     except MachineryError as e:
         print("MACHINERY-FAILURE %s: %s" % (a.pid, e), file=sys.stderr)
         return 2
-    except Exception as e:
+    except (Exception, LibraryHang) as e:
         # An exception that escapes from the LIBRARY (innermost frame in $VERIF_REPO/src) while a driver makes a call
         # the specification considers valid is a behaviour the specification does not allow: report it as a violation
         # (on the unchanged tree no such exception occurs).  Anything raised by the harness itself is a machinery failure.
         tb = traceback.extract_tb(e.__traceback__)
         src = os.path.realpath(os.path.join(REPO, "src")) + os.sep
-        if tb and os.path.realpath(tb[-1].filename).startswith(src) and not isinstance(e, MachineryError):
+        if isinstance(e, LibraryHang) and len(tb) > 1:
+            tb = tb[:-1]                    # the innermost frame is the signal handler; the one below it was interrupted
+            while len(tb) > 1 and not ("_toy_" in tb[-1].filename or os.path.realpath(tb[-1].filename).startswith(src)):
+                tb = tb[:-1]
+        if tb and ("_toy_" in tb[-1].filename or os.path.realpath(tb[-1].filename).startswith(src)) and not isinstance(e, MachineryError):
             text = "".join(traceback.format_exception(type(e), e, e.__traceback__))
             path = save_replay(a.pid, {"property": a.pid, "kind": "uncaught-exception", "traceback": text})
             print("VIOLATION property=%s replay=%s" % (a.pid, path))
